@@ -32,6 +32,7 @@ type metricDef struct {
 	meta     *format.MetricMetaValue // what Meta returns (nil: unknown to Meta)
 	itemMeta *format.MetricMetaValue // what rows carry in Item.MetricMeta (may be nil or stale)
 	budget   uint32
+	genFki   []int // FairKeyIndex the generator gave the metric (meta may be unknown to Meta)
 }
 
 type metaMock struct {
@@ -186,6 +187,13 @@ func runCase(h *verifx.H, ci int, r *verifx.Rng, c06 bool, shared *data_model.Sa
 	}
 	useBudgets := mode != "quota" && r.Chance(2, 5)
 	distinctWhales := r.Chance(1, 4)
+	// fair-key shaping: flat hierarchy, SampleKeys on, the metric that sorts first has no fair keys, the others have fair key lists
+	// of different lengths with one big fair-key value next to many small ones (isolation below the metric level)
+	fkSkew := mode != "quota" && r.Chance(1, 5)
+	if fkSkew {
+		flat, useBudgets = true, false
+		cfg.SampleNamespaces, cfg.SampleGroups, cfg.SampleKeys = false, false, true
+	}
 
 	// ---------------------------------------------------------------- hierarchy
 	mm := &metaMock{metrics: map[int32]*format.MetricMetaValue{}, groups: map[int32]*format.MetricsGroup{}, namespaces: map[int32]*format.NamespaceMeta{}}
@@ -230,7 +238,16 @@ func runCase(h *verifx.H, ci int, r *verifx.Rng, c06 bool, shared *data_model.Sa
 				case 4:
 					meta.FairKeyIndex = []int{[]int{-1, 48, 60, 5}[r.Intn(4)], 0}
 				}
-				md := &metricDef{id: id, meta: meta, itemMeta: meta}
+				if fkSkew {
+					id = nextMetric - 1 // ascending ids: the first metric sorts first in its parent
+					meta.MetricID = id
+					meta.NoSampleAgent = false
+					meta.FairKeyIndex = nil
+					if len(metrics) > 0 {
+						meta.FairKeyIndex = [][]int{{0}, {0}, {1, 0}, {0, 1, 2}}[r.Intn(4)]
+					}
+				}
+				md := &metricDef{id: id, meta: meta, itemMeta: meta, genFki: meta.FairKeyIndex}
 				switch r.Pick(8, 2, 1, 1) {
 				case 1: // rows carry no meta: looked up in Meta
 					md.itemMeta = nil
@@ -257,6 +274,9 @@ func runCase(h *verifx.H, ci int, r *verifx.Rng, c06 bool, shared *data_model.Sa
 	var sumSize int64
 	for _, md := range metrics {
 		nRows := []int{1, 1, 2, 3, 4, 6, 8, 12, 20}[r.Intn(9)]
+		if fkSkew {
+			nRows = []int{8, 12, 16, 20}[r.Intn(4)]
+		}
 		sizeBase := []int{1, 4, 10, 28, 60, 200}[r.Intn(6)]
 		if mode == "det" && sizeBase == 1 && !r.Chance(1, 8) {
 			sizeBase = 2 // the budget bound of deterministic selection is stated for rows of at least 2 bytes
@@ -268,6 +288,14 @@ func runCase(h *verifx.H, ci int, r *verifx.Rng, c06 bool, shared *data_model.Sa
 			it.Key.Tags[1] = int32(r.Range(0, 2))
 			it.Key.Tags[2] = int32(r.Range(0, 1))
 			it.Key.Tags[5] = int32(r.Range(0, 1))
+			if fkSkew && len(md.genFki) > 0 {
+				// most rows share fair-key value 0 (the flooding value), the rest are small values of their own
+				x := md.genFki[0]
+				it.Key.Tags[x] = 0
+				if k%4 == 3 {
+					it.Key.Tags[x] = int32(10 + k)
+				}
+			}
 			it.Tail.Value.AddValueCounter(0, 1)
 			if r.Chance(1, 5) { // not a single value counter
 				it.Top = map[data_model.TagUnion]*data_model.MultiValue{{I: 1}: {}, {I: 2}: {}}
@@ -293,6 +321,34 @@ func runCase(h *verifx.H, ci int, r *verifx.Rng, c06 bool, shared *data_model.Sa
 				sumSize += int64(rw.size)
 			}
 			rows = append(rows, rw)
+		}
+	}
+	// rows ACCOUNTED to a metric although they belong to another one (agent and aggregator account ingestion-status rows to the
+	// user metric in Tags[1]): Key.Metric and the carried MetricMeta are the other metric's (different namespace, group, weight,
+	// fair keys), SamplingMultiItemPair.MetricID is the accounting metric, whose meta the sampler must use for the whole partition.
+	// Only where every row of the metric resolves to the same meta whichever row sorts first (metric known to Meta).
+	if hasMeta {
+		for _, md := range metrics {
+			if md.meta == nil || !r.Chance(1, 3) {
+				continue
+			}
+			other := &format.MetricMetaValue{MetricID: 9000 + md.id, NamespaceID: 998, GroupID: 997, EffectiveWeight: int64([]int{1, 31, 640}[r.Intn(3)]),
+				NoSampleAgent: r.Chance(1, 4), FairKeyIndex: [][]int{nil, {0}, {1, 0}}[r.Intn(3)]}
+			for k := r.Range(1, 3); k > 0; k-- {
+				it := &data_model.MultiItem{MetricMeta: other}
+				it.Key.Metric = other.MetricID
+				it.Key.Tags[1] = md.id
+				it.Key.Tags[2] = int32(k)
+				it.Tail.Value.AddValueCounter(0, 1)
+				rw := &row{id: len(rows), item: it, metric: md.id, selCall: -1, whale: 0}
+				rw.size = []int{4, 28, 60}[r.Intn(3)]
+				if uniformSize > 0 {
+					rw.size = uniformSize
+				}
+				sumSize += int64(rw.size)
+				rows = append(rows, rw)
+				h.Stat("rows.accountedToOtherMetric", 1)
+			}
 		}
 	}
 	// fixed per metric budgets (as handed back by the aggregator in quota mode)
@@ -325,9 +381,9 @@ func runCase(h *verifx.H, ci int, r *verifx.Rng, c06 bool, shared *data_model.Sa
 		for _, md := range metrics {
 			if md.id == rw.metric {
 				rw.budget = md.budget
-				// resolve meta the way Run does: the row's own meta if it is for this metric id, else a lookup
-				if md.itemMeta != nil && md.itemMeta.MetricID == md.id {
-					m := md.itemMeta
+				// what the property demands: the sampling options of a row are those of the metric it is ACCOUNTED to — the meta the row
+				// carries if it is that metric's, else the meta storage's (the model resolves this itself from the `acc=` token)
+				if m := rw.item.MetricMeta; m != nil && m.MetricID == md.id {
 					rw.ns, rw.grp, rw.wMetric, rw.noSample, rw.fki = m.NamespaceID, m.GroupID, m.EffectiveWeight, m.NoSampleAgent, m.FairKeyIndex
 				} else {
 					rw.ns, rw.grp, rw.wMetric, rw.noSample, rw.fki = data_model.VerifMetricMeta(cfg, md.id)
@@ -566,8 +622,29 @@ func runCase(h *verifx.H, ci int, r *verifx.Rng, c06 bool, shared *data_model.Sa
 		for k := range tags {
 			tags[k] = int(rw.item.Key.Tags[k])
 		}
-		h.Op("item %d %d %d %d %d %d %d %d %d %d %d %s %s %d %d", rw.id, rw.size, rw.whale, rw.metric, rw.budget, rw.ns, rw.grp,
-			rw.wNsTab, rw.wGrpTab, rw.wMetric, b2i(rw.noSample), ilist(rw.fki), ilist(tags), b2i(rw.single), rw.rank)
+		// the fields of the line are what meta storage says about the ACCOUNTING metric (getMetricMeta(MetricID)); `acc=` is the meta
+		// the row carries itself (Item.MetricMeta), which the sampler may use only if it is the accounting metric's
+		lns, lgrp, lw, lnos, lfki := data_model.VerifMetricMeta(cfg, rw.metric)
+		var lwNs, lwGrp int64
+		if g := mm.groups[lgrp]; g != nil {
+			lwGrp = g.EffectiveWeight
+		}
+		if n := mm.namespaces[lns]; n != nil {
+			lwNs = n.EffectiveWeight
+		}
+		acc := ""
+		if m := rw.item.MetricMeta; m != nil {
+			var cwNs, cwGrp int64
+			if g := mm.groups[m.GroupID]; g != nil {
+				cwGrp = g.EffectiveWeight
+			}
+			if n := mm.namespaces[m.NamespaceID]; n != nil {
+				cwNs = n.EffectiveWeight
+			}
+			acc = fmt.Sprintf(" acc=%d/%d/%d/%d/%d/%d/%d/%s", m.MetricID, m.NamespaceID, m.GroupID, cwNs, cwGrp, m.EffectiveWeight, b2i(m.NoSampleAgent), ilist(m.FairKeyIndex))
+		}
+		h.Op("item %d %d %d %d %d %d %d %d %d %d %d %s %s %d %d%s", rw.id, rw.size, rw.whale, rw.metric, rw.budget, lns, lgrp,
+			lwNs, lwGrp, lw, b2i(lnos), ilist(lfki), ilist(tags), b2i(rw.single), rw.rank, acc)
 	}
 	{
 		ds := make([]string, len(draws))
@@ -842,6 +919,48 @@ func oracleC06(h *verifx.H, mode string, cfg data_model.SamplerConfig, rows []*r
 				}
 			} else {
 				h.Stat("oracle.topShareExceeds", 1)
+			}
+		}
+		// one level below: fair-key values inside a metric (flat hierarchy: metrics are the top level partitions). A metric that is
+		// sampled gets at least floor(budget*w/W) (the per-weight share of the partitions left for the sampling loop never shrinks,
+		// share_fits_or_still_fits; RoundF rounds to floor or floor+1), and its K fair-key values have weight 1 each: a value whose
+		// size does not exceed that lower bound divided by K is within its share and keeps all its rows with factor 1.
+		if !cfg.SampleNamespaces && !cfg.SampleGroups && cfg.SampleKeys && !anyBudget && mode != "quota" {
+			for _, k := range keys {
+				p := parts[k]
+				fki := p.rows[0].fki
+				if len(fki) == 0 {
+					continue
+				}
+				lb := budget * p.weight / W
+				vals := map[int32][]*row{}
+				var vkeys []int32
+				for _, rw := range p.rows {
+					var v int32
+					if x := fki[0]; 0 <= x && x < len(rw.item.Key.Tags) {
+						v = rw.item.Key.Tags[x]
+					}
+					if vals[v] == nil {
+						vkeys = append(vkeys, v)
+					}
+					vals[v] = append(vals[v], rw)
+				}
+				sort.Slice(vkeys, func(i, j int) bool { return vkeys[i] < vkeys[j] })
+				for _, v := range vkeys {
+					var sz int64
+					for _, rw := range vals[v] {
+						sz += int64(rw.size)
+					}
+					if sz*int64(len(vkeys)) <= lb {
+						h.Stat("oracle.fairKeyFits", 1)
+						if bad, ok := allKeptOne(vals[v]); !ok {
+							h.Viol("fair-key-below-share-sampled", "metric %d (weight %d of %d, budget %d => at least %d bytes) has %d fair-key values; value %d of size %d is within its share %d but row %d kept=%d factor=%v",
+								k[2], p.weight, W, budget, lb, len(vkeys), v, sz, lb/int64(len(vkeys)), bad.id, bad.nKeep, bad.sf)
+						}
+					} else {
+						h.Stat("oracle.fairKeyExceeds", 1)
+					}
+				}
 			}
 		}
 	}
